@@ -48,6 +48,9 @@ pub enum Case {
     /// constructor that must return null
     BadDecoder { alist: String, imp: String, pattern: String, via_file: u8 },
     BadEncoder { alist: String, pattern: String, via_file: u8 },
+    /// implementation name or pattern given as bytes that are not valid UTF-8 (a C caller can pass any
+    /// NUL-terminated byte string): not a name, not a pattern, so the constructor must return null
+    BadBytes { alist: String, imp: Vec<u8>, pattern: Vec<u8>, encoder: bool, via_file: bool },
 }
 
 fn pattern_string(p: &Option<Vec<bool>>) -> String {
@@ -145,6 +148,26 @@ fn bad_case() -> BoxedStrategy<Case> {
         1 => (good_alist(), name(), 2..4u8).prop_map(|(alist, imp, via_file)| Case::BadDecoder { alist, imp, pattern: String::new(), via_file }),
         2 => (bad_alist(), 0..2u8).prop_map(|(alist, via_file)| Case::BadEncoder { alist, pattern: String::new(), via_file }),
         1 => (good_alist(), 2..4u8).prop_map(|(alist, via_file)| Case::BadEncoder { alist, pattern: String::new(), via_file }),
+        // byte strings that are not valid UTF-8 in the name or in the pattern
+        2 => (good_alist(), name(), prop_oneof![Just("".to_string()), Just("1".to_string()), Just("1,0".to_string()), Just("1,1,0".to_string())], prop_oneof![Just(vec![0xffu8]), Just(vec![0xc3u8]), Just(vec![0xe9u8]), Just(vec![0xf0u8, 0x9f]), Just(vec![0x80u8]), Just(vec![0xc0u8, 0xaf])], any::<u16>(), 0..3u8, any::<bool>(), any::<bool>())
+            .prop_map(|(alist, imp, pat, bad, at, target, encoder, via_file)| {
+                let splice = |s: &str| -> Vec<u8> {
+                    let mut b = s.as_bytes().to_vec();
+                    // insert at a character boundary of the ASCII string
+                    let i = idx(at, b.len() + 1);
+                    for (k, x) in bad.iter().enumerate() {
+                        b.insert(i + k, *x);
+                    }
+                    b
+                };
+                // target 0: name only, 1: pattern only, 2: both (the encoder has no name: pattern always)
+                let (imp_b, pat_b) = match (target, encoder) {
+                    (0, false) => (splice(&imp), pat.as_bytes().to_vec()),
+                    (1, _) | (0, true) => (imp.as_bytes().to_vec(), splice(&pat)),
+                    _ => (splice(&imp), splice(&pat)),
+                };
+                Case::BadBytes { alist, imp: imp_b, pattern: pat_b, encoder, via_file }
+            }),
         // encoder: valid alist, singular last columns
         2 => (super::c02::strategy(8).prop_filter("singular tail", |c| { let n = c.h.cols; let r = c.h.rows; c.h.to_bits().submatrix_cols(n - r, n).rank() < r }), 0..2u8).prop_map(|(c, via_file)| Case::BadEncoder { alist: own_alist(&c.h, false), pattern: String::new(), via_file }),
         1 => (super::c02::strategy(8).prop_filter("invertible tail", |c| { let n = c.h.cols; let r = c.h.rows; c.h.to_bits().submatrix_cols(n - r, n).rank() == r }), bad_pattern(), 0..2u8).prop_map(|(c, pattern, via_file)| Case::BadEncoder { alist: own_alist(&c.h, true), pattern, via_file }),
@@ -385,6 +408,56 @@ fn run_case(case: &Case) -> Check {
             }
             Ok(())
         }
+        Case::BadBytes { alist, imp, pattern, encoder, via_file } => {
+            let ci = CString::new(imp.clone()).map_err(|_| Fail::new("harness", "NUL in generated bytes".to_string()))?;
+            let cp = CString::new(pattern.clone()).map_err(|_| Fail::new("harness", "NUL in generated bytes".to_string()))?;
+            let file = scratch_file("bb");
+            let null = unsafe {
+                if *via_file {
+                    let _ = std::fs::write(&file, alist);
+                    let cf = cstr(file.to_str().unwrap());
+                    let r = if *encoder {
+                        let h = ldpc_toolbox_encoder_ctor(cf.as_ptr(), cp.as_ptr());
+                        let n = h.is_null();
+                        if !n {
+                            ldpc_toolbox_encoder_dtor(h);
+                        }
+                        n
+                    } else {
+                        let h = ldpc_toolbox_decoder_ctor(cf.as_ptr(), ci.as_ptr(), cp.as_ptr());
+                        let n = h.is_null();
+                        if !n {
+                            ldpc_toolbox_decoder_dtor(h);
+                        }
+                        n
+                    };
+                    let _ = std::fs::remove_file(&file);
+                    r
+                } else {
+                    let ct = cstr(alist);
+                    if *encoder {
+                        let h = ldpc_toolbox_encoder_ctor_alist_string(ct.as_ptr(), cp.as_ptr());
+                        let n = h.is_null();
+                        if !n {
+                            ldpc_toolbox_encoder_dtor(h);
+                        }
+                        n
+                    } else {
+                        let h = ldpc_toolbox_decoder_ctor_alist_string(ct.as_ptr(), ci.as_ptr(), cp.as_ptr());
+                        let n = h.is_null();
+                        if !n {
+                            ldpc_toolbox_decoder_dtor(h);
+                        }
+                        n
+                    }
+                }
+            };
+            // (for the encoder a null can also come from a singular tail of the generated matrix, which is fine)
+            if !null {
+                return Err(Fail::new("ctor-not-null", format!("{} constructor returned a handle although the implementation name {:?} / pattern {:?} is not valid UTF-8 (so neither a name nor a pattern)", if *encoder { "encoder" } else { "decoder" }, String::from_utf8_lossy(imp), String::from_utf8_lossy(pattern))));
+            }
+            Ok(())
+        }
         Case::BadEncoder { alist, pattern, via_file } => {
             let cp = cstr(pattern);
             let file = scratch_file("be");
@@ -425,7 +498,7 @@ pub fn property() -> Property {
         id: "C19",
         subs: vec![Box::new(Sub {
             name: "c-api",
-            rule: "each case in a child process (abort isolation). Decoder handles: alist (own writer, padded or not, as text or as a file) of a C01-style matrix, one of the 36 names, pattern '' or a 0/1 list with >= one 1 whose length divides n, then 1..=8 decode calls (f64 or f32 buffers of the punctured length, output_len in 0..=n, limits incl. 0 and, for frames that a fresh Rust decoder converges on within 64 iterations, 10^6, 2^31-1, 2^31 and 2^32-1): return value = iterations / -1 and the output = leading bits of what a fresh Rust decoder returns for Puncturer::depuncture(llrs) (f32 widened); guard bytes behind the buffer untouched. Encoder handles: C02-style matrices, pattern, 1..=4 messages: output = punctured Encoder::encode; a singular tail must give null. Failing constructors: malformed alist texts (C08 generator, filtered to texts the Rust parser rejects), unknown names, malformed patterns, missing file, directory instead of file, singular tail -> null. Non-trivial = decoder handle with >= 2 calls, encoder with a pattern, or a failing constructor; inner = decode calls",
+            rule: "each case in a child process (abort isolation). Decoder handles: alist (own writer, padded or not, as text or as a file) of a C01-style matrix, one of the 36 names, pattern '' or a 0/1 list with >= one 1 whose length divides n, then 1..=8 decode calls (f64 or f32 buffers of the punctured length, output_len in 0..=n, limits incl. 0 and, for frames that a fresh Rust decoder converges on within 64 iterations, 10^6, 2^31-1, 2^31 and 2^32-1): return value = iterations / -1 and the output = leading bits of what a fresh Rust decoder returns for Puncturer::depuncture(llrs) (f32 widened); guard bytes behind the buffer untouched. Encoder handles: C02-style matrices, pattern, 1..=4 messages: output = punctured Encoder::encode; a singular tail must give null. Failing constructors: malformed alist texts (C08 generator, filtered to texts the Rust parser rejects), unknown names, malformed patterns, missing file, directory instead of file, singular tail, names / patterns that are not valid UTF-8 -> null. Non-trivial = decoder handle with >= 2 calls, encoder with a pattern, or a failing constructor; inner = decode calls",
             cases: |t| t.pick(12_000, 400_000),
             strategy,
             check,
